@@ -1,3 +1,4 @@
+mod c02;
 mod c03;
 mod c04;
 mod c05;
@@ -11,6 +12,7 @@ mod interp;
 mod craft;
 mod gen_ss;
 mod session;
+mod ssudp;
 mod stream;
 mod util;
 
@@ -36,6 +38,7 @@ fn main() {
             let mut s = session::Session::new();
             let mut rng = util::Rng::new(seed);
             match prop {
+                "C02" => c02::generate(&mut s, tier, &mut rng),
                 "C03" => c03::generate(&mut s, tier, &mut rng),
                 "C04" => c04::generate(&mut s, tier, &mut rng),
                 "C05" => c05::generate(&mut s, tier, &mut rng),
